@@ -63,6 +63,7 @@ struct Report {
     uint64_t index = 0;      // running case index used for sharding
     uint64_t sample_every = 1000;
     bool verbose = false;
+    bool warm = false;       // warm-up mode: only create FFTW wisdom for every transform length, check nothing
 
     void init(int argc, char** argv, const char* prop, const char* harn) {
         property = prop; harness = harn; tier = "quick";
@@ -74,6 +75,7 @@ struct Report {
             else if (a == "--out" && i + 1 < argc) out = argv[++i];
             else if (a == "--deadline" && i + 1 < argc) deadline_s = atof(argv[++i]);
             else if (a == "-v") verbose = true;
+            else if (a == "--warm") warm = true;
         }
     }
     bool thorough() const { return tier == "thorough"; }
